@@ -886,8 +886,8 @@ impl AsyncMirror {
 		}
 	}
 
-	/// Some channel has stored updates above its stored monitor with an id missing in between (or
-	/// no stored monitor write yet covering them), while a write for that channel is still parked.
+	/// Some channel has stored updates above its stored monitor with an id missing in between, while
+	/// an earlier-issued write for that channel is still parked or failed with an injected error.
 	fn gap_with_parked_write(&self, state: &BTreeMap<String, (Val, usize)>) -> bool {
 		let parked = self.kv.parked.lock().unwrap();
 		for (key, ch) in self.chans.iter() {
@@ -918,6 +918,16 @@ impl AsyncMirror {
 				o.kind == OpKind::Write && ((o.p == mk && o.k == *key) || (o.p == uk && o.s == *key))
 			});
 			if has_parked {
+				return true;
+			}
+			// ... or failed with an injected error after a later update had already taken effect
+			let g = self.kv.store.inner.lock().unwrap();
+			let failed = g.ops.iter().any(|o| {
+				o.kind == OpKind::Write
+					&& o.err && !o.applied
+					&& ((o.primary == mk && o.key == *key) || (o.primary == uk && o.secondary == *key))
+			});
+			if failed {
 				return true;
 			}
 		}
